@@ -5,8 +5,9 @@
    udp/server/server.go on every run.
 
    Reading guide.  A history h is any list of events
-     Recv t | Pong g t | PongCb g | Tick t sendok | Dgram t sendok | Frag t
-   (Model.ev; Frag t = bytes that complete no message arrive on a stream connection); [run c (init t0) h] is the list of (event, what the monitor did).
+     Recv t | Pong g t | PongCb g | Tick t sendok | Dgram t sendok | Frag t | Sent t
+   (Model.ev; Frag t = bytes that complete no message arrive on a stream connection; Sent t = the LOCAL side
+   transmits a message); [run c (init t0) h] is the list of (event, what the monitor did).
    [wf c]: maxRetries is a uint32 other than 2^32-1.  [rx_ordered t0 h]: the
    arrival times of messages do not go backwards (monotonic clock); ticks may
    carry any time.  For an item at position |pre| of the trace, [rev pre] is the
@@ -16,7 +17,7 @@
    t + lookahead for the datagram path of the udp server. *)
 From Coq Require Import ZArith List Bool.
 From GoCoap Require Import Gen.MonitorTiming Gen.StreamConsts Monitor.Model Monitor.Spec Monitor.Proofs.
-From GoCoap Require Import Monitor.StreamModel Monitor.StreamProofs.
+From GoCoap Require Import Monitor.StreamModel Monitor.StreamProofs Monitor.MultiProofs.
 From GoCoap Require Stream.Spec Stream.Proofs.
 Import ListNotations.
 Open Scope Z_scope.
@@ -188,6 +189,111 @@ Proof.
   cbv zeta. split; [unfold wf; cbn; split; [discriminate|reflexivity]|]. split.
   - intros f [<-|[<-|[]]]; split; vm_compute; try reflexivity; discriminate.
   - split; [cbn; repeat split; discriminate|]. split; vm_compute; reflexivity.
+Qed.
+
+(* ---- messages sent by the local side --------------------------------------------------
+   "no message was RECEIVED FROM THE PEER for a full period": what the local side
+   transmits (Sent t) leaves the monitor untouched, is no reception time and no reset
+   point for the judge, and can be deleted from a history without changing anything
+   the monitor does.  Together with C18_first_tick (whose [rx_all] ignores Sent):
+   a peer that is sent to, but says nothing, is closed at the first tick later than
+   a full period after its last MESSAGE. *)
+Theorem C18_sent_inert : forall c s t o older,
+  step c s (Sent t) = (s, []) /\ rx_time (Sent t, o) = None /\ is_reset older (Sent t, o) = false.
+Proof. intros c s t o older. split; [exact (sent_inert c s t)|exact (sent_not_received t o older)]. Qed.
+Print Assumptions C18_sent_inert.
+
+Theorem C18_sent_erasable : forall c h s,
+  filter (fun it => not_sent (fst it)) (run c s h) = run c s (filter not_sent h) /\
+  final c s (filter not_sent h) = final c s h.
+Proof. intros c h s. split; [exact (run_without_sends c h s)|exact (final_without_sends c h s)]. Qed.
+Print Assumptions C18_sent_erasable.
+
+(* ---- several connections from one option value (one server, many peers) --------------
+   [mrun c (minit t0s) h]: system of length t0s connections, every one with its own
+   monitor + keep-alive state as options/commonOptions.go creates them (one
+   NewKeepAlive + NewWithOnActive per call of cfg.CreateInactivityMonitor); h is a
+   list of (connection, event); [proj i] / [projh i] = sub-trace / events of connection i. *)
+
+(* non-interference: what the monitor of connection i does depends on the events of
+   connection i only *)
+Theorem C18_multi_projection : forall c t0s h i t0, nth_error t0s i = Some t0 ->
+  proj i (mrun c (minit t0s) h) = run c (init t0) (projh i h).
+Proof. exact proj_minit. Qed.
+Print Assumptions C18_multi_projection.
+
+Theorem C18_multi_independent : forall c ss h h' i s, nth_error ss i = Some s ->
+  projh i h = projh i h' -> proj i (mrun c ss h) = proj i (mrun c ss h').
+Proof. exact independent. Qed.
+Print Assumptions C18_multi_independent.
+
+(* every connection, on its own sub-trace, passes the judge (the one bin/check evaluates
+   on the traces observed on several real connections) *)
+Theorem C18_multi_spec_all : forall c t0s h, wf c ->
+  (forall i t0, nth_error t0s i = Some t0 -> rx_ordered t0 (projh i h)) ->
+  mjudge (MP c t0s) (length t0s) (mrun c (minit t0s) h) = 0%N.
+Proof. exact multi_spec_all. Qed.
+Print Assumptions C18_multi_spec_all.
+
+(* a housekeeping round visits the connections in the order of a Go map iteration:
+   the order is irrelevant to every connection *)
+Theorem C18_multi_round_order : forall c ss pre post o1 o2 t ok i s,
+  NoDup o1 -> NoDup o2 -> (forall j, In j o1 <-> In j o2) -> nth_error ss i = Some s ->
+  proj i (mrun c ss (pre ++ round o1 t ok ++ post)) = proj i (mrun c ss (pre ++ round o2 t ok ++ post)).
+Proof. exact round_order. Qed.
+Print Assumptions C18_multi_round_order.
+
+(* keep-alive, per connection: connection i is closed exactly at ITS OWN failure max+1
+   since ITS OWN last reset point -- not earlier because other connections became
+   inactive in the same round (their pings are not its failures), not later because
+   other connections keep talking (their messages are not its reset points) *)
+Theorem C18_multi_keepalive_close : forall c t0s h i t0 pre e o post,
+  wf c -> nth_error t0s i = Some t0 -> rx_ordered t0 (projh i h) ->
+  proj i (mrun c (minit t0s) h) = pre ++ (e, o) :: post ->
+  ka c = true -> has_strike o = true ->
+  (has_close o = true <-> maxr c <= failures (rev pre)).
+Proof. intros c t0s h i t0 pre e o post W Hi Ho Hs. exact (multi_keepalive_close c t0s h i t0 W Hi Ho pre post e o Hs). Qed.
+Print Assumptions C18_multi_keepalive_close.
+
+Theorem C18_multi_only_if_idle : forall c t0s h i t0 pre e o post,
+  wf c -> nth_error t0s i = Some t0 -> rx_ordered t0 (projh i h) ->
+  proj i (mrun c (minit t0s) h) = pre ++ (e, o) :: post ->
+  has_strike o = true ->
+  was_closed (rev pre) = false /\
+  exists tau, tick_time (P_of c t0) e = Some tau /\ period c <> 0 /\
+    forall r, In r (t0 :: rx_all (rev pre)) -> r + period c <= tau.
+Proof. intros c t0s h i t0 pre e o post W Hi Ho Hs. exact (multi_only_if_idle c t0s h i t0 W Hi Ho pre post e o Hs). Qed.
+Print Assumptions C18_multi_only_if_idle.
+
+Theorem C18_multi_first_tick : forall c t0s h i t0 pre e o post tau,
+  wf c -> nth_error t0s i = Some t0 -> rx_ordered t0 (projh i h) ->
+  proj i (mrun c (minit t0s) h) = pre ++ (e, o) :: post ->
+  was_closed (rev pre) = false -> tick_time (P_of c t0) e = Some tau -> period c <> 0 ->
+  (forall r, In r (t0 :: rx_all (rev pre)) -> r + period c < tau) ->
+  has_strike o = true /\ (ka c = false -> has_close o = true).
+Proof. intros c t0s h i t0 pre e o post tau W Hi Ho Hs. exact (multi_first_tick c t0s h i t0 W Hi Ho pre post e o Hs tau). Qed.
+Print Assumptions C18_multi_first_tick.
+
+(* non-vacuity: three peers, retry limit 2, period 1000.  All three are inactive in the
+   round at 1001: each gets its FIRST ping and nobody is closed; peers 0 and 1 answer,
+   peer 2 is dead while peer 1 keeps talking: peer 2 -- and only peer 2 -- is closed at
+   its third unanswered round.  In between the local side sends to peer 2: no effect. *)
+Example C18_multi_witness :
+  let c := {| period := 1000; maxr := 2; ka := true |} in
+  let h := round [0; 1; 2]%nat 1001 true ++ [(0%nat, Pong 1 1200); (1%nat, Pong 1 1400)] ++
+           round [2; 0; 1]%nat 2301 true ++ [(1%nat, Recv 2400); (2%nat, Sent 2500)] ++ round [1; 2; 0]%nat 3302 true in
+  wf c /\ (forall i t0, nth_error [0; 0; 0] i = Some t0 -> rx_ordered t0 (projh i h)) /\
+  proj 2 (mrun c (minit [0; 0; 0]) h) =
+    [(Tick 1001 true, [Ping 1]); (Tick 2301 true, [Cancel 1; Ping 2]); (Sent 2500, []); (Tick 3302 true, [Cancel 2; Close])] /\
+  proj 0 (mrun c (minit [0; 0; 0]) h) =
+    [(Tick 1001 true, [Ping 1]); (Pong 1 1200, []); (Tick 2301 true, [Cancel 1; Ping 2]); (Tick 3302 true, [Cancel 2; Ping 3])] /\
+  proj 1 (mrun c (minit [0; 0; 0]) h) =
+    [(Tick 1001 true, [Ping 1]); (Pong 1 1400, []); (Tick 2301 true, []); (Recv 2400, []); (Tick 3302 true, [])].
+Proof.
+  cbv zeta. split; [unfold wf; cbn; split; [discriminate|reflexivity]|]. split.
+  - intros i t0 H. destruct i as [|[|[|i]]]; cbn in H; try (destruct i; discriminate H);
+      inversion H; subst t0; cbn; repeat split; discriminate.
+  - repeat split; vm_compute; reflexivity.
 Qed.
 
 (* non-vacuity: period 1 s, maxRetries 1; ping, other message, two more idle
